@@ -21,6 +21,7 @@ UNITS = [
     {'name': 'k.rank_small_counters', 'backend': 'kani', 'tier': 'quick', 'props': ['C01', 'C12']},
     {'name': 'k.bfv_unaligned', 'backend': 'kani', 'tier': 'quick', 'props': ['C10', 'C12']},
     {'name': 'k.bfv_apply', 'backend': 'kani', 'tier': 'thorough', 'props': ['C10', 'C14', 'C12']},
+    {'name': 'k.atomic', 'backend': 'kani', 'tier': 'quick', 'props': ['C05', 'C14', 'C12']},
     {'name': 'k.mod2', 'backend': 'kani', 'tier': 'thorough', 'props': ['C12']},
     {'name': 'lenders.rewind', 'backend': 'verus', 'tier': 'quick', 'c12': False},
     {'name': 'bfv.core@u64', 'backend': 'verus', 'tier': 'quick'},
